@@ -270,28 +270,42 @@ def install_observer():
     _OBS["installed"] = True
 
 
-def validate_header(sh):
-    """serialise [sequence_header, end_of_sequence] with autofill, run the real validator (parse_stream) and
-    observe its sequence_header step.  Accepted = the validator's sequence_header() returned; what the
-    validator says about the rest of this artificial two-unit sequence (levels 64-66 demand a picture after
-    every sequence header) is recorded as `after` but is not part of C15."""
+def serialise_header(sh, isolate):
+    """[sequence_header, end_of_sequence] serialised with autofill -> bytes.  isolate: a deep copy of the header is
+    serialised (autofill writes into the header it is given); otherwise the very object is (the in-order pass)."""
     import copy
 
     from vc2_data_tables import ParseCodes
     from vc2_conformance.bitstream import Stream, Sequence, DataUnit, ParseInfo, autofill_and_serialise_stream
-    from vc2_conformance.pseudocode.state import State
-    from vc2_conformance.decoder import init_io, parse_stream
 
-    install_observer()
     seq = Sequence(
         data_units=[
-            DataUnit(parse_info=ParseInfo(parse_code=ParseCodes.sequence_header), sequence_header=copy.deepcopy(sh)),
+            DataUnit(parse_info=ParseInfo(parse_code=ParseCodes.sequence_header), sequence_header=copy.deepcopy(sh) if isolate else sh),
             DataUnit(parse_info=ParseInfo(parse_code=ParseCodes.end_of_sequence)),
         ]
     )
     f = io.BytesIO()
     autofill_and_serialise_stream(f, Stream(sequences=[seq]))
-    f.seek(0)
+    return f.getvalue()
+
+
+def validate_header(sh):
+    """serialise [sequence_header, end_of_sequence] with autofill (isolated: a deep copy), run the real validator"""
+    data = serialise_header(sh, True)
+    r = validate_bytes(data)
+    return r, data
+
+
+def validate_bytes(data):
+    """run the real validator (parse_stream) on a serialised [sequence_header, end_of_sequence] and
+    observe its sequence_header step.  Accepted = the validator's sequence_header() returned; what the
+    validator says about the rest of this artificial two-unit sequence (levels 64-66 demand a picture after
+    every sequence header) is recorded as `after` but is not part of C15."""
+    from vc2_conformance.pseudocode.state import State
+    from vc2_conformance.decoder import init_io, parse_stream
+
+    install_observer()
+    f = io.BytesIO(data)
     st = State()
     init_io(st, f)
     r = {"ok": False, "exc": "NotReached", "key": "", "dec": {}, "dpcm": -1, "ver": -1, "after": "", "calls": 0}
@@ -337,11 +351,30 @@ def exec_case(job):
         ev["gen_exc"] = common.exc_signature(ex)
         headers = []
     ev["generated"] = len(headers)
-    for i in (range(len(headers)) if full else thin(headers, tid)):
+    kept = list(range(len(headers)) if full else thin(headers, tid))
+    iso = []
+    for i in kept:
         sh = headers[i]
         h = {"n": i, "b": int(sh["base_video_format"]), "e": project_header(sh)}
-        h.update(validate_header(sh))
+        r, data = validate_header(sh)
+        h.update(r)
+        iso.append(data)
         ev["hs"].append(h)
+    # the in-order pass: the very objects the generator yielded, serialised one after the other in generation
+    # order without copying them (as a user of iter_sequence_headers would); the heap is projected as `cell` =
+    # position of the first recorded header whose parse-parameters object IS this header's.  Identical bytes are
+    # not validated twice (the validator is a function of the bytes).
+    cells = {}
+    for pos, i in enumerate(kept):
+        sh, h = headers[i], ev["hs"][pos]
+        h["cell"] = cells.setdefault(id(sh.get("parse_parameters")), pos + 1)
+        try:
+            data = serialise_header(sh, False)
+        except Exception as ex:  # noqa -- a yielded header that cannot be serialised as it is: not accepted
+            h["same"], h["s"] = False, {"ok": False, "exc": "SerialiseError", "key": "", "dec": {}, "dpcm": -1, "ver": -1, "after": "", "sig": common.exc_signature(ex)}
+            continue
+        h["same"] = data == iso[pos]
+        h["s"] = {"ok": True} if h["same"] else validate_bytes(data)
     return ev
 
 
@@ -413,6 +446,11 @@ def judge(ctx, events, tables, nchunks, report=True):
             dis[b["clause"]] = dis.get(b["clause"], 0) + 1
             continue
         h = ev["hs"][b["h"] - 1]
+        inorder = b["clause"].endswith("InOrder")
+        if inorder:
+            # the verdict on the bytes of the in-order pass (the header as yielded, serialised after its predecessors)
+            h = dict(h["s"], b=h["b"], e=h["e"], n=h["n"])
+            b = dict(b, clause=b["clause"][: -len("InOrder")])
         if b["clause"] in ("Rejected", "RejectedLevelVersion"):
             detail = "%s:%s" % (h["exc"], h["key"]) if h["key"] else h.get("sig", h["exc"])
             what = "level %d, base %d: validator rejected a generated sequence header with %s (%s); requested %s" % (ev["level"], h["b"], h["exc"], h["key"], ev["req"])
@@ -423,7 +461,9 @@ def judge(ctx, events, tables, nchunks, report=True):
         else:
             detail = "pcm"
             what = "decoded picture coding mode %r, requested %r" % (h["dpcm"], ev["pcm"])
-        sig = "C15|%s|%s" % (b["clause"], detail)
+        sig = "C15|%s|%s" % (b["clause"] + ("InOrder" if inorder else ""), detail)
+        if inorder:
+            what = "serialised as yielded, after the %d header(s) generated before it (no copies; parse-parameters cell %d, major_version %d): %s" % (h["n"], ev["hs"][b["h"] - 1]["cell"], h["ver"], what)
         if b["clause"] == "RejectedLevelVersion":
             sig += "|level%d" % ev["level"]
         alarms.append((sig, what, {"cfg": {"vp": ev["req"], "pcm": ev["pcm"], "level": ev["level"], "ft": ev["ft"]}, "header": b["h"]}))
@@ -431,9 +471,11 @@ def judge(ctx, events, tables, nchunks, report=True):
 
 
 # ------------------------------------------------------------------------------------------ self-tests
-def selftest_binding(cfgs, tables):
+def selftest_binding(cfgs, tables, hazard):
     """(1) a broken encoder (in-process monkeypatch, restored) must raise the alarm through the same pipeline;
-    (2) a corrupted recorded field must be rejected by the trace spec."""
+    (2) a corrupted recorded field must be rejected by the trace spec; (3) an encoder whose yielded headers share
+    ONE parse-parameters object must be flagged by the in-order pass on configurations whose alternative headers
+    need different versions (`hazard`), and the heap model must name the aliasing."""
     import vc2_conformance.encoder.sequence_header as enc
 
     victims = [c for c in cfgs if c["f"]["sc"] == 1 and c["level"] == 0][:6]
@@ -468,7 +510,30 @@ def selftest_binding(cfgs, tables):
     c2 = [b for b in bad if b["line"] == 2 and b["clause"] in ("SpecDecode", "SpecOption") and not b["alarm"]]
     if not c1 or not c2:
         raise RuntimeError("trace binding self-test failed: corrupted fields accepted (%r)" % (bad,))
-    return {"mutant": "iter_scan_format_options never codes the scan format (in-process, restored)", "headers_flagging_it": hit1, "corrupted_fields": "decoded clean_width+1 -> WrongParameters (alarm); recorded frame-rate option changed -> %s (logged)" % c2[0]["clause"]}
+    orig_mpp = enc.make_parse_parameters
+    one = []
+
+    def aliased(codec_features):
+        if not one:
+            one.append(orig_mpp(codec_features))
+        return one[0]
+
+    enc.make_parse_parameters = aliased
+    try:
+        evs = []
+        for i, c in enumerate(hazard[:3]):
+            del one[:]
+            evs.append(exec_case((i + 1, c, True)))
+    finally:
+        enc.make_parse_parameters = orig_mpp
+    bad, _ = validate_chunk(("SeqHeaderTrace", evs, TRACE_CFG, [tables]))
+    hit3 = sum(1 for b in bad if b["alarm"] and b["clause"] == "RejectedInOrder")
+    named = sum(1 for b in bad if not b["alarm"] and b["clause"] == "SpecAliasedParseParameters")
+    unexplained = sum(1 for b in bad if b["clause"] == "SpecInOrderVersion")
+    if hit3 == 0 or named == 0 or unexplained:
+        raise RuntimeError("binding self-test failed: headers sharing one parse-parameters object: %d flagged, %d named by the heap model, %d versions not predicted by it" % (hit3, named, unexplained))
+    return {"mutant": "iter_scan_format_options never codes the scan format (in-process, restored)", "headers_flagging_it": hit1,
+            "aliasing_mutant": "make_parse_parameters returns one shared object per configuration (in-process, restored): %d in-order headers flagged RejectedInOrder, %d named SpecAliasedParseParameters, every stale version predicted by SeqHeaderOps!SerialiseInOrder" % (hit3, named), "corrupted_fields": "decoded clean_width+1 -> WrongParameters (alarm); recorded frame-rate option changed -> %s (logged)" % c2[0]["clause"]}
 
 
 # ------------------------------------------------------------------------------------------------ run
@@ -554,7 +619,19 @@ def run(ctx):
         raise RuntimeError("vacuous: no header was generated and accepted")
     empty = sum(1 for e in events if not e["hs"])
     genexc = sorted(set(e["gen_exc"] for e in events if e["gen_exc"]))
-    st = selftest_binding(cfgs, tables)
+    # configurations whose recorded alternative headers carry different minimal versions: only there does the order
+    # of serialisation (aliased parse parameters) matter
+    hazard = [c for c, e in zip(todo, events) if len(set(h["ver"] for h in e["hs"] if h["ok"])) > 1]
+    if not hazard:
+        raise RuntimeError("vacuous: no configuration whose alternative headers need different major versions")
+    try:
+        st = selftest_binding(cfgs, tables, hazard)
+    except RuntimeError as ex:
+        # on a tree that already falsifies the property the in-process mutants sit on top of a defective encoder;
+        # the fresh violations of this run are then the evidence that the pipeline flags a broken encoder
+        if not alarms:
+            raise
+        st = {"not_completed": str(ex), "note": "this run reports violations (the binding flags this tree); the in-process mutants were applied on top of it"}
     phase("selftest")
     distinct = len(set(repr((e["req"], e["pcm"], e["level"], h["b"], h["e"])) for e in events for h in e["hs"] if h["e"] != events[0]["hs"][0]["e"] or True))
     nontrivial = len(set(repr((e["req"], e["pcm"], e["level"], h["b"], h["e"])) for e in events for h in e["hs"] if any(h["e"][g]["f"] == 1 for g in h["e"])))
@@ -563,12 +640,18 @@ def run(ctx):
             "traces_validated_against_impl": len(events),
             "evaluations": nh,
             "distinct_nontrivial": nontrivial,
-            "rule": "quick tier: of the headers of a configuration all those on the best-ranked base format and all those on one other base format (rotating) are validated (all of them for the seeded 'fully cross-checked' configurations; thorough: for half); one evaluation = one generated sequence header serialised, validated by the real validator and judged by SeqHeaderTrace; configurations = completed choices of SeqHeaderFormats.tla (all with <= 1 deviating group%s, plus %d simulate walks with up to 8 deviating groups); distinct = (requested format, coding mode, level, base format, encoding); non-trivial = the encoding sets at least one custom flag" % (", a seeded sample of those with 2" if mp > 1 else "", len(walks)),
+            "rule": "quick tier: of the headers of a configuration all those on the best-ranked base format and all those on one other base format (rotating) are validated (all of them for the seeded 'fully cross-checked' configurations; thorough: for half); one evaluation = one generated sequence header serialised (in isolation AND as yielded, in generation order after its predecessors, without a copy), validated by the real validator (identical bytes once) and judged by SeqHeaderTrace; configurations = completed choices of SeqHeaderFormats.tla (all with <= 1 deviating group%s, plus %d simulate walks with up to 8 deviating groups); distinct = (requested format, coding mode, level, base format, encoding); non-trivial = the encoding sets at least one custom flag" % (", a seeded sample of those with 2" if mp > 1 else "", len(walks)),
             "exhaustive": True,
             "exhaustive_note": "the TLC model is explored completely for MaxPerturb=%d; all its configurations with <= 1 deviating group are executed against the implementation%s" % (mp, "; of those with 2 a seeded sample of %d" % len(doubles) if mp > 1 else ""),
             "configurations": {"single": len(singles), "double": len(doubles), "walks": len(walks)},
             "headers_generated": sum(e["generated"] for e in events),
             "headers_validated": nh,
+            "in_order_pass": {
+                "headers_serialised_as_yielded_in_generation_order": nh,
+                "bytes_differ_from_isolated": sum(1 for e in events for h in e["hs"] if not h["same"]),
+                "configurations_whose_headers_need_different_versions": len(hazard),
+                "aliased_parse_parameter_cells": sum(1 for e in events for j, h in enumerate(e["hs"]) if h["cell"] != j + 1),
+            },
             "cpu_seconds_by_phase": phases,
             "headers_accepted": nok,
             "distinct_headers": distinct,
@@ -590,6 +673,7 @@ def run(ctx):
     ctx.assumptions += [
         "formats are regular (SeqHeaderOps!Regular: dimensions divisible by the subsampling / field factors, clean area inside the frame)",
         "the header is validated as the two-unit sequence [sequence_header, end_of_sequence] serialised with autofill (major_version AUTO)",
+        "in-order pass: the recorded headers of a configuration (quick tier: a subset, see rule) are serialised as yielded one after the other in generation order; when the bytes equal those of the isolated serialisation the validator is not run again",
         "for a real level the non-video codec features are the smallest values its table column allows (SeqHeaderFormats!Feat)",
         "TLC -coverage is not used (it does not terminate on the generated tables module); per-action counts are the number of dumped states per stage",
     ]
